@@ -27,7 +27,7 @@ import (
 // ------------------------------------------------------------------ marshaler configurations
 
 var c15MarshalerNames = []string{"json/default", "json/StructName", "json/NamedStruct(FullyQualified)", "json/colliding",
-	"proto/default", "proto/NamedStruct(StructName)"}
+	"proto/default", "proto/NamedStruct(StructName)", "gogo/default(std fallback)", "gogo/StructName,no fallback"}
 
 func c15Marshaler(mk int, newUUID func() string) cqrs.CommandEventMarshaler {
 	switch mk {
@@ -41,8 +41,12 @@ func c15Marshaler(mk int, newUUID func() string) cqrs.CommandEventMarshaler {
 		return cqrs.JSONMarshaler{NewUUID: newUUID, GenerateName: ct.Colliding}
 	case 4:
 		return cqrs.ProtoMarshaler{NewUUID: newUUID}
-	default:
+	case 5:
 		return cqrs.ProtoMarshaler{NewUUID: newUUID, GenerateName: cqrs.NamedStruct(cqrs.StructName)}
+	case 6:
+		return cqrs.ProtobufMarshaler{NewUUID: newUUID}
+	default:
+		return cqrs.ProtobufMarshaler{NewUUID: newUUID, GenerateName: cqrs.StructName, DisableStdProtoFallback: true}
 	}
 }
 
@@ -63,6 +67,7 @@ type c15Tab struct {
 	in       *script.Interner
 	vals     map[[2]int]bool
 	payloads map[int]bool
+	zeroKeys [][2]int
 }
 
 func newC15Tab(mk int, in *script.Interner) *c15Tab {
@@ -71,7 +76,10 @@ func newC15Tab(mk int, in *script.Interner) *c15Tab {
 		z := ct.New(ty)
 		_, c := ct.Render(z)
 		t.Zero = append(t.Zero, [2]int{ty, in.ID(c)})
-		t.addValue(z)
+		// only the NAME of a zero value is needed (handler type names); it is not marshalled
+		key := [2]int{ty, in.ID(c)}
+		t.Names = append(t.Names, [3]int{key[0], key[1], in.ID(t.m.Name(z))})
+		t.zeroKeys = append(t.zeroKeys, key)
 	}
 	return t
 }
@@ -84,7 +92,15 @@ func (t *c15Tab) addValue(v any) [2]int {
 		return key
 	}
 	t.vals[key] = true
-	t.Names = append(t.Names, [3]int{key[0], key[1], t.in.ID(t.m.Name(v))})
+	isZero := false
+	for _, z := range t.zeroKeys {
+		if z == key {
+			isZero = true
+		}
+	}
+	if !isZero {
+		t.Names = append(t.Names, [3]int{key[0], key[1], t.in.ID(t.m.Name(v))})
+	}
 	if msg, err := t.m.Marshal(v); err == nil {
 		p := t.in.ID("payload:" + string(msg.Payload))
 		t.Enc = append(t.Enc, [3]int{key[0], key[1], p})
@@ -162,7 +178,10 @@ type c15Delivery struct {
 	Anomalies []string        `json:"anomalies,omitempty"`
 	Flight    int32           `json:"flight"`
 
-	Groups    int             `json:"router_handlers"` // router handlers (cqrs handlers / groups) on the same processor
+	Groups    int             `json:"router_handlers"`
+	Wrapped   bool            `json:"wrapped"` // the processor's marshaler is the recording wrapper
+	MTrace    [][]interface{} `json:"mtrace"`  // marshaler calls made for this delivery + Handle entries with object numbers
+	objs      map[interface{}]int // router handlers (cqrs handlers / groups) on the same processor
 
 	mu     sync.Mutex
 	msg    *message.Message
@@ -201,6 +220,10 @@ type c15Scenario struct {
 	lost      int32 // handler / hook invocations that could not be attributed to a delivery
 	Reg       [][]interface{}
 	regMu     sync.Mutex
+	wrapped   bool
+	facade    bool
+	facadePub *script.Publisher
+	facadeObj *cqrs.Facade
 }
 
 var errC15Handler = errors.New("scripted handler error")
@@ -235,6 +258,9 @@ func (s *c15Scenario) handle(hid int, ctx context.Context, v any) error {
 	tag, _ := ctx.Value(c15TagKey{}).(int)
 	ty, c := ct.Render(v)
 	d.rec("handle", hid, ty, s.in.ID(c), s.origCode(d, ctx), tag)
+	if d.Wrapped {
+		d.mrec("m-handle", hid, d.objNum(v))
+	}
 	time.Sleep(time.Duration(200+hid*37%300) * time.Microsecond)
 	sc := d.script[hid]
 	if sc[0] != 0 {
@@ -379,6 +405,24 @@ type c15RawMsg struct {
 // throughBus sends v through a REAL bus of the scenario's kind and marshaler and returns what
 // reached the publisher.
 func (s *c15Scenario) throughBus(v any) (*message.Message, error) {
+	if s.facadeObj != nil {
+		// the Facade's own bus and publisher
+		before := len(s.facadePub.Snapshot())
+		var err error
+		if s.kind == 0 {
+			err = s.facadeObj.CommandBus().Send(context.Background(), v)
+		} else {
+			err = s.facadeObj.EventBus().Publish(context.Background(), v)
+		}
+		if err != nil {
+			return nil, err
+		}
+		calls := s.facadePub.Snapshot()
+		if len(calls) != before+1 || len(calls[before].Msgs) != 1 {
+			return nil, fmt.Errorf("facade bus published %d calls", len(calls)-before)
+		}
+		return calls[before].Msgs[0], nil
+	}
 	pub := &script.Publisher{}
 	m := c15Marshaler(s.mk, nil)
 	var err error
@@ -426,6 +470,12 @@ func (s *c15Scenario) randomValue(ty int) any {
 }
 
 func (s *c15Scenario) typePool() []int {
+	if s.mk == 7 { // no std fallback: std protobuf types are outside this marshaler's domain
+		return []int{ct.TGStr, ct.TGInt, ct.TGStr, ct.TGInt, ct.TCmdA}
+	}
+	if s.mk == 6 {
+		return []int{ct.TGStr, ct.TGInt, ct.TGStr, ct.TPStr, ct.TPInt, ct.TCmdA}
+	}
 	if c15IsProto(s.mk) {
 		return []int{ct.TPStr, ct.TPInt, ct.TPDur, ct.TPStr, ct.TPInt, ct.TCmdA}
 	}
@@ -524,7 +574,10 @@ func (s *c15Scenario) run(sIdx int) ([]*c15Delivery, error) {
 	if err != nil {
 		return nil, err
 	}
-	m := c15Marshaler(s.mk, nil)
+	var m cqrs.CommandEventMarshaler = c15Marshaler(s.mk, nil)
+	if s.wrapped {
+		m = &c15RecMarshaler{inner: m, in: s.in}
+	}
 	n := len(s.htypes)
 	subs := make([]*script.Subscriber, n)
 	topics := make([]string, n)
@@ -544,7 +597,24 @@ func (s *c15Scenario) run(sIdx int) ([]*c15Delivery, error) {
 			hs[i] = c15CmdHandler(ty, fmt.Sprintf("h%d", i), hf(i))
 			s.hids[hs[i]] = i
 		}
-		if s.depr {
+		if s.depr && s.facade {
+			// the deprecated Facade (cqrs.go): NewCommandBus + NewCommandProcessor + AddHandlersToRouter
+			s.facadePub = &script.Publisher{}
+			f, err := cqrs.NewFacade(cqrs.FacadeConfig{
+				GenerateCommandsTopic: func(name string) string { s.reg("topic", s.in.ID(name), -1); return "cmd." + name },
+				CommandHandlers:       func(cb *cqrs.CommandBus, eb *cqrs.EventBus) []cqrs.CommandHandler { return hs },
+				CommandsPublisher:     s.facadePub,
+				CommandsSubscriberConstructor: func(handlerName string) (message.Subscriber, error) {
+					i, _ := strconv.Atoi(handlerName[1:])
+					s.reg("sub", -1, i)
+					return newSub(i), nil
+				},
+				Router: router, CommandEventMarshaler: m, Logger: watermill.NopLogger{}})
+			if err != nil {
+				return nil, fmt.Errorf("NewFacade: %w", err)
+			}
+			s.facadeObj = f
+		} else if s.depr {
 			cp, err := cqrs.NewCommandProcessor(hs, func(name string) string { s.reg("topic", s.in.ID(name), -1); return "cmd." + name },
 				func(handlerName string) (message.Subscriber, error) {
 					i, _ := strconv.Atoi(handlerName[1:])
@@ -602,7 +672,23 @@ func (s *c15Scenario) run(sIdx int) ([]*c15Delivery, error) {
 			hs[i] = c15EvtHandler(ty, fmt.Sprintf("h%d", i), hf(i))
 			s.hids[hs[i]] = i
 		}
-		if s.depr {
+		if s.depr && s.facade {
+			s.facadePub = &script.Publisher{}
+			f, err := cqrs.NewFacade(cqrs.FacadeConfig{
+				GenerateEventsTopic: func(name string) string { s.reg("topic", s.in.ID(name), -1); return "evt." + name },
+				EventHandlers:       func(cb *cqrs.CommandBus, eb *cqrs.EventBus) []cqrs.EventHandler { return hs },
+				EventsPublisher:     s.facadePub,
+				EventsSubscriberConstructor: func(handlerName string) (message.Subscriber, error) {
+					i, _ := strconv.Atoi(handlerName[1:])
+					s.reg("sub", -1, i)
+					return newSub(i), nil
+				},
+				Router: router, CommandEventMarshaler: m, Logger: watermill.NopLogger{}})
+			if err != nil {
+				return nil, fmt.Errorf("NewFacade: %w", err)
+			}
+			s.facadeObj = f
+		} else if s.depr {
 			ep, err := cqrs.NewEventProcessor(hs, func(name string) string { s.reg("topic", s.in.ID(name), -1); return "evt." + name },
 				func(handlerName string) (message.Subscriber, error) {
 					i, _ := strconv.Atoi(handlerName[1:])
@@ -729,9 +815,13 @@ func (s *c15Scenario) run(sIdx int) ([]*c15Delivery, error) {
 			id := fmt.Sprintf("s%d-d%d", sIdx, atomic.AddInt64(&c15Seq, 1))
 			d := &c15Delivery{ID: id, Tab: s.tabIdx, Kind: s.kind, AckErrors: s.ackErrors, AckUnk: s.ackUnk, OnHandle: s.onHandle,
 				UUID: s.in.ID(id), Payload: pid, Tag: 1 + s.rng.Intn(5), Stale: s.rng.Intn(6) == 0, Source: raw.source, Sent: raw.sent,
-				Ctor: "config", Settles: []bool{}, Trace: [][]interface{}{}, script: map[int][2]int{}, subIdx: tgIdx, Groups: len(targets)}
+				Ctor: "config", Settles: []bool{}, Trace: [][]interface{}{}, script: map[int][2]int{}, subIdx: tgIdx, Groups: len(targets),
+				Wrapped: s.wrapped, MTrace: [][]interface{}{}}
 			if s.depr {
 				d.Ctor = "deprecated"
+				if s.facade {
+					d.Ctor = "facade"
+				}
 			}
 			failAt := -1
 			if s.rng.Intn(2) == 0 {
@@ -839,6 +929,8 @@ type c15BusCall struct {
 	Tag     int      `json:"tag"`
 	Conc    int      `json:"conc"`
 
+	Wrapped   bool            `json:"wrapped"`
+	MTrace    [][]interface{} `json:"mtrace"`
 	Trace     [][]interface{} `json:"trace"`
 	Res       int             `json:"res"` // 0 ok, 1..5 marshal/topic/hook/modify/publish error, 6 panicked, 7 other error
 	Anomalies []string        `json:"anomalies,omitempty"`
@@ -965,7 +1057,11 @@ func (b *c15BusScenario) run(sIdx, tabIdx, mk int) ([]*c15BusCall, error) {
 			return "uuid-outside-call"
 		}
 	}
-	m := c15Marshaler(mk, newUUID)
+	var m cqrs.CommandEventMarshaler = c15Marshaler(mk, newUUID)
+	busWrapped := b.rng.Intn(10) < 7
+	if busWrapped {
+		m = &c15RecMarshaler{inner: m, in: b.in, bus: b}
+	}
 	pub := &script.Publisher{OnPublish: func(call int, topic string, msgs []*message.Message) error {
 		c := b.cur()
 		if c == nil {
@@ -1075,6 +1171,12 @@ func (b *c15BusScenario) run(sIdx, tabIdx, mk int) ([]*c15BusCall, error) {
 	if c15IsProto(mk) {
 		pool = []int{ct.TPStr, ct.TPInt, ct.TPDur, ct.TPStr, ct.TCmdA}
 	}
+	if mk == 6 {
+		pool = []int{ct.TGStr, ct.TGInt, ct.TGStr, ct.TPStr, ct.TCmdA}
+	}
+	if mk == 7 {
+		pool = []int{ct.TGStr, ct.TGInt, ct.TGStr, ct.TCmdA}
+	}
 	ncalls := 4 + b.rng.Intn(6)
 	var cs []*c15BusCall
 	as := []int{0, 1, 7, -3}
@@ -1089,7 +1191,7 @@ func (b *c15BusScenario) run(sIdx, tabIdx, mk int) ([]*c15BusCall, error) {
 		key := b.tab.addValue(v)
 		id := fmt.Sprintf("b%d-%d", sIdx, k)
 		c := &c15BusCall{Tab: tabIdx, BusKind: busKind, Ctor: "config", Val: key, Ptr: ptr, Tag: 1 + b.rng.Intn(5), v: v,
-			uuidStr: "uuid-" + id, objs: map[*message.Message]int{}, Trace: [][]interface{}{}}
+			uuidStr: "uuid-" + id, objs: map[*message.Message]int{}, Trace: [][]interface{}{}, Wrapped: busWrapped, MTrace: [][]interface{}{}}
 		c.topicStr = fmt.Sprintf("topic-%d", b.rng.Intn(3))
 		c.Topic = b.in.ID(c.topicStr)
 		if !depr {
@@ -1298,6 +1400,7 @@ func c15RunReg(in *script.Interner, rng *rand.Rand, tab *c15Tab, tabIdx, mk int)
 
 type c15Out struct {
 	RegCases   []*c15RegCase    `json:"regcases"`
+	RegScripts []*c15RegScript  `json:"regscripts"`
 	Tabs       []*c15Tab        `json:"tabs"`
 	Deliveries []*c15Delivery   `json:"deliveries"`
 	Bus        []*c15BusCall    `json:"bus"`
@@ -1342,7 +1445,9 @@ func cmdC15(args []string) error {
 
 	for i := 0; i < *nScen; i++ {
 		s := &c15Scenario{in: in, rng: rng}
-		s.mk = []int{0, 0, 1, 2, 3, 3, 4, 5}[rng.Intn(8)]
+		s.wrapped = rng.Intn(10) < 7
+		s.facade = rng.Intn(2) == 0 // only used by deprecated command / event scenarios
+		s.mk = []int{0, 0, 1, 2, 3, 3, 4, 5, 6, 7}[rng.Intn(10)]
 		s.kind = []int{0, 1, 2, 2}[rng.Intn(4)]
 		s.depr = s.kind != 2 && rng.Intn(5) == 0
 		s.ackErrors = rng.Intn(2) == 0
@@ -1378,7 +1483,21 @@ func cmdC15(args []string) error {
 		if atomic.LoadInt32(&c15Unsettled) >= 3 {
 			break
 		}
-		ds, err := s.run(i)
+		var ds []*c15Delivery
+		var err error
+		func() {
+			defer func() {
+				if pv := recover(); pv != nil {
+					// registering the scenario's handlers panicked (e.g. a router-handler name that is not the
+					// cqrs handler's HandlerName collides): reported as a delivery that could not be made
+					ds = []*c15Delivery{{ID: fmt.Sprintf("s%d-setup", i), Tab: s.tabIdx, Kind: s.kind, Ctor: "config", Source: "setup", Trace: [][]interface{}{}, Settles: []bool{},
+						Handlers: [][2]int{}, Scripts: [][2]int{}, Meta: [][2]int{},
+						Anomalies: []string{fmt.Sprintf("registering the handlers on the Router panicked: %v", pv)}}}
+					err = nil
+				}
+			}()
+			ds, err = s.run(i)
+		}()
 		if err != nil {
 			return fmt.Errorf("scenario %d: %w", i, err)
 		}
@@ -1388,7 +1507,7 @@ func cmdC15(args []string) error {
 	curScn.Store(nil)
 
 	for i := 0; i < *nBus; i++ {
-		mk := []int{0, 0, 1, 2, 3, 4, 5}[rng.Intn(7)]
+		mk := []int{0, 0, 1, 2, 3, 4, 5, 6, 7}[rng.Intn(9)]
 		b := &c15BusScenario{in: in, rng: rng, tab: newC15Tab(mk, in)}
 		tabIdx := len(res.Tabs)
 		res.Tabs = append(res.Tabs, b.tab)
@@ -1408,6 +1527,17 @@ func cmdC15(args []string) error {
 			return fmt.Errorf("registration scenario %d: %w", i, err)
 		}
 		res.RegCases = append(res.RegCases, c)
+	}
+	for i := 0; i < 2**nBus; i++ {
+		mk := []int{0, 1, 2, 3, 3, 4, 5}[rng.Intn(7)]
+		tab := newC15Tab(mk, in)
+		tabIdx := len(res.Tabs)
+		res.Tabs = append(res.Tabs, tab)
+		sc, err := c15RunRegScript(in, rng, tab, tabIdx, mk)
+		if err != nil {
+			return fmt.Errorf("registration script %d: %w", i, err)
+		}
+		res.RegScripts = append(res.RegScripts, sc)
 	}
 	res.Strings = len(in.Tab)
 	res.Table = in.Tab
